@@ -4,16 +4,13 @@ CONSTANTS
  Mols = {}
  Dev = "none"
  FixedOrder = TRUE
- Paths <- MCPaths
+ Paths <- MCPathOne
  MaxOps = 5
  WithFF = FALSE
- MolIdx <- MCMolAll
+ MolIdx <- MCMolTwo
  MsgKinds <- MCMsgNone
  MaxMsgs = 0
- WithEnv = FALSE
- HDev = "none"
+ WithEnv = TRUE
+ HDev = "searchPathLastWins"
 INVARIANT ReadIsCurrent
-INVARIANT FsHoldsWrite
-INVARIANT HistExport
-PROPERTY OnlyWritesChangeFiles
 CHECK_DEADLOCK FALSE
